@@ -14,7 +14,8 @@ RULE = ("1-D: N in 1..65 (odd and even), batch shapes ()..(3,2), real/complex/fl
         "batch=per-item, cyclic-shift theorem, centred Gaussian vs analytic. Real variants: half-spectrum equality, "
         "round trip, Hermitian-weighted Parseval for even N. Non-trivial = odd N>=3, or batch rank>=1, or 2-D. "
         "Distinct = distinct canonical JSON of the case."
-        " Also: nearly square rectangular real frames (M = N +- 1, 2); cubes of more than 2^22 samples (argument untouched, no aliasing, per-frame equality, round trip, Parseval).")
+        " Also: nearly square rectangular real frames (M = N +- 1, 2); cubes of more than 2^22 samples (argument untouched, no aliasing, per-frame equality, round trip, Parseval)."
+        " Law threads: all six transforms on equal-shape frames from four threads at once.")
 ASSUMPTIONS = ["origin at the centre sample means index N//2 (the centre sample for odd N, the usual convention for even N)",
                "frequency spacing is 1/(N*delta) as the statement requires",
                "tolerance 1e-10 relative to the input/output norm (double-precision FFT)"]
